@@ -266,8 +266,8 @@ Proof.
   revert pend. induction l as [|[e v] r IH]; intros pend; simpl; auto.
   destruct (elems v) as [|x b] eqn:E.
   - apply IH.
-  - specialize (IH []). destruct (unbatch_segs id [] r) as [o f]. simpl in *.
-    rewrite map_app, (spread_values id _ (x :: b)), IH. reflexivity.
+  - specialize (IH []). destruct (unbatch_segs id [] r) as [o f]. cbn [fst snd] in *.
+    simpl. rewrite map_app, spread_values. do 2 f_equal. exact IH.
 Qed.
 
 Lemma zip_segs_values id la lb fa fb :
@@ -303,7 +303,7 @@ Proof.
   - destruct W as [Hn W]. specialize (IH W). destruct (iter_s d) as [l fin]. simpl in *.
     rewrite (batch_segs_values id (Nat.max n 1) [] [] l fin (length (lref d))); simpl; try lia.
     + now rewrite IH.
-    + rewrite <- IH, map_length. lia.
+    + rewrite <- IH, map_length. apply le_n.
   - destruct W as [W _]. specialize (IH W). destruct (iter_s d) as [l fin]. simpl in *.
     pose proof (unbatch_segs_values id [] l) as F. destruct (unbatch_segs id [] l) as [o pend]. simpl in *.
     now rewrite F, IH.
@@ -320,3 +320,356 @@ Qed.
 
 Lemma length_iter d : lwf d -> length (fst (iter_s d)) = length (lref d).
 Proof. intros W. rewrite <- (values_ref d W). unfold values. now rewrite map_length. Qed.
+
+(* ------------------------------------------------------------------------------------------------ *)
+(* which events can occur: a property P of events that holds for the events a stage generates itself is preserved
+   by that stage *)
+
+Definition segP (P : ev -> Prop) (s : seg) : Prop := Forall P (fst s).
+Definition stream_all (P : ev -> Prop) (s : stream) : Prop := Forall (segP P) (fst s) /\ Forall P (snd s).
+
+Ltac fa := repeat (apply Forall_app; split); repeat (apply Forall_cons); try apply Forall_nil; auto.
+
+Lemma stream_all_upto P s k : stream_all P s -> Forall P (events_upto k s).
+Proof.
+  intros [H _]. unfold events_upto. revert k. induction H as [|[e v] l He Hl IH]; intros k.
+  - rewrite firstn_nil. constructor.
+  - destruct k; simpl; [constructor|]. apply Forall_app; split; [exact He|apply IH].
+Qed.
+Lemma stream_all_all P s : stream_all P s -> Forall P (all_events s).
+Proof.
+  intros [H F]. unfold all_events. apply Forall_app; split; auto.
+  clear F. induction H as [|[e v] l He Hl IH]; simpl; [constructor|]. apply Forall_app; split; auto.
+Qed.
+
+Section Preserve.
+  Variable P : ev -> Prop.
+  Variable id : nat.
+  Hypothesis Pf : P (Fetch id).
+
+  Lemma filter_segs_P p pend l : (forall v, P (App id v)) -> Forall P pend -> Forall (segP P) l ->
+    stream_all P (filter_segs id p pend l).
+  Proof.
+    intros Pa Hp Hl. revert pend Hp. induction Hl as [|[e v] r He Hr IH]; intros pend Hp; simpl.
+    - split; simpl; auto.
+    - unfold segP in He; simpl in He. destruct (p v).
+      + specialize (IH [] (Forall_nil _)). destruct (filter_segs id p [] r) as [o f].
+        destruct IH as [IH1 IH2]. split; simpl in *; auto. constructor; auto. unfold segP; simpl. fa.
+      + apply IH. fa.
+  Qed.
+
+  Lemma batch_segs_P n ce cv l fin : Forall P ce -> Forall (segP P) l -> Forall P fin ->
+    stream_all P (batch_segs id n ce cv l fin).
+  Proof.
+    intros Hc Hl Hfin. revert ce cv Hc. induction Hl as [|[e v] r He Hr IH]; intros ce cv Hc; simpl.
+    - destruct cv; split; simpl; auto.
+      + fa.
+      + constructor; auto. unfold segP; simpl. fa.
+    - unfold segP in He; simpl in He. destruct (n <=? S (length cv)).
+      + specialize (IH [] [] (Forall_nil _)). destruct (batch_segs id n [] [] r fin) as [o f].
+        destruct IH as [IH1 IH2]. split; simpl in *; auto. constructor; auto. unfold segP; simpl. fa.
+      + apply IH. fa.
+  Qed.
+
+  Lemma spread_P e b : Forall P e -> Forall (segP P) (spread id e b).
+  Proof.
+    revert e. induction b as [|x b IH]; intros e He; simpl; constructor.
+    - unfold segP; simpl. fa.
+    - apply IH. constructor.
+  Qed.
+
+  Lemma unbatch_segs_P pend l : Forall P pend -> Forall (segP P) l -> stream_all P (unbatch_segs id pend l).
+  Proof.
+    intros Hp Hl. revert pend Hp. induction Hl as [|[e v] r He Hr IH]; intros pend Hp; simpl.
+    - split; simpl; auto.
+    - unfold segP in He; simpl in He. destruct (elems v) as [|x b].
+      + apply IH. fa.
+      + specialize (IH [] (Forall_nil _)). destruct (unbatch_segs id [] r) as [o f].
+        destruct IH as [IH1 IH2]. split; simpl in *; auto. constructor.
+        * unfold segP; simpl. fa.
+        * apply Forall_app; split; auto. apply spread_P. constructor.
+  Qed.
+
+  Lemma zip_segs_P la lb fa' fb : Forall (segP P) la -> Forall (segP P) lb -> Forall P fa' -> Forall P fb ->
+    stream_all P (zip_segs id la lb fa' fb).
+  Proof.
+    intros Ha Hb Hfa Hfb. revert lb Hb. induction Ha as [|[ea va] ra Hea Hra IH]; intros lb Hb; simpl.
+    - split; simpl; auto.
+    - unfold segP in Hea; simpl in Hea. destruct Hb as [|[eb vb] rb Heb Hrb].
+      + split; simpl; auto. fa.
+      + unfold segP in Heb; simpl in Heb. specialize (IH rb Hrb). destruct (zip_segs id ra rb fa' fb) as [o f].
+        destruct IH as [IH1 IH2]. split; simpl in *; auto. constructor; auto. unfold segP; simpl. fa.
+  Qed.
+
+  Lemma slice_segs_P get idx : (forall i e v, get i = Some (e, v) -> Forall P e) ->
+    Forall (segP P) (slice_segs id get idx).
+  Proof.
+    intros G. induction idx as [|i r IH]; simpl; [constructor|].
+    destruct (get i) as [[e v]|] eqn:E; constructor; auto. unfold segP; simpl. fa. eauto.
+  Qed.
+
+  Lemma tag_fetch_P l : Forall (segP P) l -> Forall (segP P) (map (tag_fetch id) l).
+  Proof.
+    induction 1 as [|[e v] r He Hr IH]; simpl; constructor; auto. unfold segP in *; simpl in *. fa.
+  Qed.
+
+  Lemma batch_get_P get fails start k first es vs :
+    (forall i e v, get i = Some (e, v) -> Forall P e) -> Forall P fails ->
+    batch_get get fails start k first = Some (es, vs) -> Forall P es.
+  Proof.
+    intros G F. revert start first es vs. induction k as [|k IH]; intros start first es vs; simpl.
+    - intros H; inversion H. constructor.
+    - destruct (get start) as [[e v]|] eqn:E.
+      + destruct (batch_get get fails (S start) k false) as [[es' vs']|] eqn:E'; [|discriminate].
+        intros H; inversion H; subst. fa; eauto.
+      + destruct first; [discriminate|].
+        destruct (batch_get get fails (S start) k false) as [[es' vs']|] eqn:E'; [|discriminate].
+        intros H; inversion H; subst. fa; eauto.
+  Qed.
+End Preserve.
+
+(* P holds for the Fetch and App events of every stage of d *)
+Definition Pok (P : ev -> Prop) (d : lds) : Prop :=
+  forall i, In i (ids_of d) -> P (Fetch i) /\ forall v, P (App i v).
+Definition Pfail (P : ev -> Prop) (d : lds) : Prop := forall i, In i (ids_of d) -> P (Fail i).
+
+Lemma Pok_sub P (d d' : lds) : incl (ids_of d') (ids_of d) -> Pok P d -> Pok P d'.
+Proof. intros I H i Hi. apply H, I, Hi. Qed.
+Lemma Pfail_sub P (d d' : lds) : incl (ids_of d') (ids_of d) -> Pfail P d -> Pfail P d'.
+Proof. intros I H i Hi. apply H, I, Hi. Qed.
+
+Lemma fail_path_P P d : Pfail P d -> Forall P (fail_path d).
+Proof.
+  induction d as [id vs|id f d IH|id p d IH|id n d IH|id d IH|id a IHa b IHb|id a IHa b IHb|id idx d IH];
+    simpl; intros H; fa; try (apply H; simpl; auto).
+  - apply IH. eapply Pfail_sub; [|exact H]. simpl. apply incl_tl, incl_refl.
+  - apply IH. eapply Pfail_sub; [|exact H]. simpl. apply incl_tl, incl_refl.
+  - apply IHa. eapply Pfail_sub; [|exact H]. simpl. apply incl_tl, incl_appl, incl_refl.
+Qed.
+
+Lemma get_s_P P d : Pok P d -> Pfail P d -> forall i e v, get_s d i = Some (e, v) -> Forall P e.
+Proof.
+  induction d as [id vs|id f d IH|id p d IH|id n d IH|id d IH|id a IHa b IHb|id a IHa b IHb|id idx d IH];
+    simpl; intros H F i e v E; try discriminate;
+    assert (Hid : P (Fetch id) /\ forall v, P (App id v)) by (apply H; simpl; auto); destruct Hid as [Hf Ha].
+  - destruct (nth_error vs i); inversion E. fa.
+  - destruct (get_s d i) as [[e' v']|] eqn:E'; inversion E; subst. fa.
+    eapply IH; [| |exact E']; [eapply Pok_sub; [|exact H]|eapply Pfail_sub; [|exact F]]; simpl; apply incl_tl, incl_refl.
+  - destruct (batch_get _ _ _ _ _) as [[es vs]|] eqn:E'; inversion E; subst. fa.
+    assert (Hd : Pok P d) by (eapply Pok_sub; [|exact H]; simpl; apply incl_tl, incl_refl).
+    assert (Fd : Pfail P d) by (eapply Pfail_sub; [|exact F]; simpl; apply incl_tl, incl_refl).
+    eapply batch_get_P; [| |exact E']; [apply IH; auto|apply fail_path_P; auto].
+  - assert (Hd : Pok P a) by (eapply Pok_sub; [|exact H]; simpl; apply incl_tl, incl_appl, incl_refl).
+    assert (Fd : Pfail P a) by (eapply Pfail_sub; [|exact F]; simpl; apply incl_tl, incl_appl, incl_refl).
+    assert (Hb : Pok P b) by (eapply Pok_sub; [|exact H]; simpl; apply incl_tl, incl_appr, incl_refl).
+    assert (Fb : Pfail P b) by (eapply Pfail_sub; [|exact F]; simpl; apply incl_tl, incl_appr, incl_refl).
+    destruct (i <? length (lref a)).
+    + destruct (get_s a i) as [[e' v']|] eqn:E'; inversion E; subst. fa. eapply IHa; eauto.
+    + destruct (get_s b _) as [[e' v']|] eqn:E'; inversion E; subst. fa. eapply IHb; eauto.
+  - assert (Hd : Pok P a) by (eapply Pok_sub; [|exact H]; simpl; apply incl_tl, incl_appl, incl_refl).
+    assert (Fd : Pfail P a) by (eapply Pfail_sub; [|exact F]; simpl; apply incl_tl, incl_appl, incl_refl).
+    assert (Hb : Pok P b) by (eapply Pok_sub; [|exact H]; simpl; apply incl_tl, incl_appr, incl_refl).
+    assert (Fb : Pfail P b) by (eapply Pfail_sub; [|exact F]; simpl; apply incl_tl, incl_appr, incl_refl).
+    destruct (get_s a i) as [[ea va]|] eqn:Ea; [|discriminate].
+    destruct (get_s b i) as [[eb vb]|] eqn:Eb; inversion E; subst. fa; [eapply IHa|eapply IHb]; eauto.
+  - destruct (nth_error idx i) as [j|]; [|discriminate].
+    destruct (get_s d j) as [[e' v']|] eqn:E'; inversion E; subst. fa.
+    eapply IH; [| |exact E']; [eapply Pok_sub; [|exact H]|eapply Pfail_sub; [|exact F]]; simpl; apply incl_tl, incl_refl.
+Qed.
+
+Lemma iter_s_P P d : Pok P d -> (iter_only d = true \/ Pfail P d) -> stream_all P (iter_s d).
+Proof.
+  induction d as [id vs|id f d IH|id p d IH|id n d IH|id d IH|id a IHa b IHb|id a IHa b IHb|id idx d IH];
+    simpl; intros H F;
+    assert (Hid : P (Fetch id) /\ forall v, P (App id v)) by (apply H; simpl; auto); destruct Hid as [Hf Ha].
+  - split; simpl; [|constructor]. induction vs; simpl; constructor; auto. unfold segP; simpl. fa.
+  - assert (Hd : Pok P d) by (eapply Pok_sub; [|exact H]; simpl; apply incl_tl, incl_refl).
+    assert (Fd : iter_only d = true \/ Pfail P d)
+      by (destruct F as [F|F]; auto; right; eapply Pfail_sub; [|exact F]; simpl; apply incl_tl, incl_refl).
+    specialize (IH Hd Fd). destruct (iter_s d) as [l fin]. destruct IH as [I1 I2]. split; simpl in *; auto.
+    clear - I1 Hf Ha. induction I1 as [|[e v] r He Hr IH]; simpl; constructor; auto.
+    unfold segP in *; simpl in *. fa.
+  - assert (Hd : Pok P d) by (eapply Pok_sub; [|exact H]; simpl; apply incl_tl, incl_refl).
+    assert (Fd : iter_only d = true \/ Pfail P d)
+      by (destruct F as [F|F]; auto; right; eapply Pfail_sub; [|exact F]; simpl; apply incl_tl, incl_refl).
+    specialize (IH Hd Fd). destruct (iter_s d) as [l fin]. destruct IH as [I1 I2]. simpl in *.
+    pose proof (filter_segs_P P id Hf p [] l Ha (Forall_nil _) I1) as Q.
+    destruct (filter_segs id p [] l) as [o pend]. destruct Q as [Q1 Q2]. split; simpl in *; auto. fa.
+  - assert (Hd : Pok P d) by (eapply Pok_sub; [|exact H]; simpl; apply incl_tl, incl_refl).
+    assert (Fd : iter_only d = true \/ Pfail P d)
+      by (destruct F as [F|F]; auto; right; eapply Pfail_sub; [|exact F]; simpl; apply incl_tl, incl_refl).
+    specialize (IH Hd Fd). destruct (iter_s d) as [l fin]. destruct IH as [I1 I2]. simpl in *.
+    apply batch_segs_P; auto.
+  - assert (Hd : Pok P d) by (eapply Pok_sub; [|exact H]; simpl; apply incl_tl, incl_refl).
+    assert (Fd : iter_only d = true \/ Pfail P d)
+      by (destruct F as [F|F]; auto; right; eapply Pfail_sub; [|exact F]; simpl; apply incl_tl, incl_refl).
+    specialize (IH Hd Fd). destruct (iter_s d) as [l fin]. destruct IH as [I1 I2]. simpl in *.
+    pose proof (unbatch_segs_P P id Hf [] l (Forall_nil _) I1) as Q.
+    destruct (unbatch_segs id [] l) as [o pend]. destruct Q as [Q1 Q2]. split; simpl in *; auto. fa.
+  - assert (Hda : Pok P a) by (eapply Pok_sub; [|exact H]; simpl; apply incl_tl, incl_appl, incl_refl).
+    assert (Hdb : Pok P b) by (eapply Pok_sub; [|exact H]; simpl; apply incl_tl, incl_appr, incl_refl).
+    assert (Fa : iter_only a = true \/ Pfail P a).
+    { destruct F as [F|F]; [apply andb_true_iff in F; tauto|].
+      right; eapply Pfail_sub; [|exact F]; simpl; apply incl_tl, incl_appl, incl_refl. }
+    assert (Fb : iter_only b = true \/ Pfail P b).
+    { destruct F as [F|F]; [apply andb_true_iff in F; tauto|].
+      right; eapply Pfail_sub; [|exact F]; simpl; apply incl_tl, incl_appr, incl_refl. }
+    specialize (IHa Hda Fa). specialize (IHb Hdb Fb).
+    destruct (iter_s a) as [la fa'], (iter_s b) as [lb fb]. destruct IHa as [A1 A2], IHb as [B1 B2]. simpl in *.
+    destruct lb as [|[e v] r]; split; simpl; auto.
+    + apply tag_fetch_P; auto.
+    + fa.
+    + inversion B1; subst. unfold segP in H2; simpl in H2. apply Forall_app; split.
+      * apply tag_fetch_P; auto.
+      * constructor; [unfold segP; simpl; fa|apply tag_fetch_P; auto].
+  - assert (Hda : Pok P a) by (eapply Pok_sub; [|exact H]; simpl; apply incl_tl, incl_appl, incl_refl).
+    assert (Hdb : Pok P b) by (eapply Pok_sub; [|exact H]; simpl; apply incl_tl, incl_appr, incl_refl).
+    assert (Fa : iter_only a = true \/ Pfail P a).
+    { destruct F as [F|F]; [apply andb_true_iff in F; tauto|].
+      right; eapply Pfail_sub; [|exact F]; simpl; apply incl_tl, incl_appl, incl_refl. }
+    assert (Fb : iter_only b = true \/ Pfail P b).
+    { destruct F as [F|F]; [apply andb_true_iff in F; tauto|].
+      right; eapply Pfail_sub; [|exact F]; simpl; apply incl_tl, incl_appr, incl_refl. }
+    specialize (IHa Hda Fa). specialize (IHb Hdb Fb).
+    destruct (iter_s a) as [la fa'], (iter_s b) as [lb fb]. destruct IHa as [A1 A2], IHb as [B1 B2]. simpl in *.
+    apply zip_segs_P; auto.
+  - destruct F as [F|F]; [discriminate|]. split; simpl; [|constructor].
+    apply slice_segs_P; auto. apply get_s_P.
+    + eapply Pok_sub; [|exact H]; simpl; apply incl_tl, incl_refl.
+    + eapply Pfail_sub; [|exact F]; simpl; apply incl_tl, incl_refl.
+Qed.
+
+(* no event of the stream carries an id that is not in the pipeline *)
+Definition no_id (id : nat) (e : ev) : Prop := ev_id e <> id.
+
+Lemma iter_s_no_id id d : ~ In id (ids_of d) -> stream_all (no_id id) (iter_s d).
+Proof.
+  intros H. apply iter_s_P.
+  - intros i Hi. unfold no_id; simpl. split; [|intros _]; intros ->; auto.
+  - right. intros i Hi. unfold no_id; simpl. intros ->; auto.
+Qed.
+Lemma get_s_no_id id d i e v : ~ In id (ids_of d) -> get_s d i = Some (e, v) -> Forall (no_id id) e.
+Proof.
+  intros H. apply get_s_P.
+  - intros j Hj. unfold no_id; simpl. split; [|intros _]; intros ->; auto.
+  - intros j Hj. unfold no_id; simpl. intros ->; auto.
+Qed.
+
+Lemma no_id_apps id l : Forall (no_id id) l -> apps_of id l = [].
+Proof.
+  induction 1 as [|e l He Hl IH]; simpl; auto. rewrite IH, app_nil_r.
+  destruct e as [i|i a|i]; auto. unfold no_id in He; simpl in He. destruct (Nat.eqb_spec i id); auto; congruence.
+Qed.
+Lemma no_id_fetches id l : Forall (no_id id) l -> fetches_of id l = 0.
+Proof.
+  unfold fetches_of. induction 1 as [|e l He Hl IH]; simpl; auto.
+  destruct e as [i|i a|i]; auto. unfold no_id in He; simpl in He. destruct (Nat.eqb_spec i id); auto; congruence.
+Qed.
+Lemma no_id_drop id l : Forall (no_id id) l -> drop id l = l.
+Proof.
+  unfold drop. induction 1 as [|e l He Hl IH]; simpl; auto. unfold no_id in He.
+  destruct (Nat.eqb_spec (ev_id e) id); [congruence|]. simpl. now rewrite IH.
+Qed.
+
+(* ------------------------------------------------------------------------------------------------ *)
+(* B1/B2: map *)
+
+Definition map_seg (id : nat) (f : val -> val) (s : seg) : seg := (fst s ++ [App id (snd s); Fetch id], f (snd s)).
+
+Lemma iter_s_map id f d : iter_s (LMap id f d) = (map (map_seg id f) (fst (iter_s d)), snd (iter_s d)).
+Proof. simpl. destruct (iter_s d). reflexivity. Qed.
+
+Lemma apps_of_own id v : apps_of id [App id v; Fetch id] = [v].
+Proof. simpl. now rewrite Nat.eqb_refl. Qed.
+Lemma apps_of_own1 id v : apps_of id [App id v] = [v].
+Proof. simpl. now rewrite Nat.eqb_refl. Qed.
+
+Lemma map_upto_apps id f l k fin : Forall (segP (no_id id)) l ->
+  apps_of id (events_upto k (map (map_seg id f) l, fin)) = firstn k (map snd l).
+Proof.
+  intros H. revert k. induction H as [|[e v] r He Hr IH]; intros k.
+  - simpl. now rewrite events_upto_nil, firstn_nil.
+  - destruct k; auto. cbn [map map_seg fst snd]. rewrite events_upto_cons, !apps_of_app, apps_of_own, IH.
+    rewrite (no_id_apps id e He). reflexivity.
+Qed.
+
+Lemma map_all_apps id f l fin : Forall (segP (no_id id)) l -> Forall (no_id id) fin ->
+  apps_of id (all_events (map (map_seg id f) l, fin)) = map snd l.
+Proof.
+  intros H Hf. induction H as [|[e v] r He Hr IH].
+  - simpl. rewrite all_events_nil. now apply no_id_apps.
+  - cbn [map map_seg fst snd]. rewrite all_events_cons, !apps_of_app, apps_of_own, IH.
+    rewrite (no_id_apps id e He). reflexivity.
+Qed.
+
+(* consuming k results applies the mapped function to exactly the first k input examples, in order, once each *)
+Theorem map_demand_values id f d k : ~ In id (ids_of d) ->
+  apps_of id (events_upto k (iter_s (LMap id f d))) = firstn k (values (iter_s d)).
+Proof.
+  intros H. rewrite iter_s_map. apply map_upto_apps. apply (iter_s_no_id id d H).
+Qed.
+Theorem map_demand id f d k : ~ In id (ids_of d) -> lwf d ->
+  apps_of id (events_upto k (iter_s (LMap id f d))) = firstn k (lref d).
+Proof. intros H W. rewrite map_demand_values by assumption. now rewrite values_ref. Qed.
+Theorem map_all id f d : ~ In id (ids_of d) -> lwf d ->
+  apps_of id (all_events (iter_s (LMap id f d))) = lref d.
+Proof.
+  intros H W. rewrite iter_s_map, <- (values_ref d W).
+  destruct (iter_s_no_id id d H) as [H1 H2]. now apply map_all_apps.
+Qed.
+
+Lemma map_upto_drop id f l k fin :
+  drop id (events_upto k (map (map_seg id f) l, fin)) = drop id (events_upto k (l, fin)).
+Proof.
+  revert k. induction l as [|[e v] r IH]; intros k; auto.
+  destruct k; auto. cbn [map map_seg fst snd]. rewrite !events_upto_cons, !drop_app, drop_app_fetch, IH.
+  now rewrite app_nil_r.
+Qed.
+Lemma map_all_drop id f l fin :
+  drop id (all_events (map (map_seg id f) l, fin)) = drop id (all_events (l, fin)).
+Proof.
+  induction l as [|[e v] r IH]; auto.
+  cbn [map map_seg fst snd]. rewrite !all_events_cons, !drop_app, drop_app_fetch, IH.
+  now rewrite app_nil_r.
+Qed.
+
+(* a map pulls exactly k elements from its input to deliver k results; what happens below is unchanged, event by event *)
+Theorem map_upstream_events id f d k :
+  drop id (events_upto k (iter_s (LMap id f d))) = drop id (events_upto k (iter_s d)).
+Proof. rewrite iter_s_map, map_upto_drop. now destruct (iter_s d). Qed.
+Theorem map_upstream_events_all id f d :
+  drop id (all_events (iter_s (LMap id f d))) = drop id (all_events (iter_s d)).
+Proof. rewrite iter_s_map, map_all_drop. now destruct (iter_s d). Qed.
+
+Theorem map_upstream_transparent id f d k id' : id' <> id ->
+  apps_of id' (events_upto k (iter_s (LMap id f d))) = apps_of id' (events_upto k (iter_s d)).
+Proof.
+  intros H. rewrite <- (apps_of_drop id' id _ H), map_upstream_events. now apply apps_of_drop.
+Qed.
+Theorem map_upstream_transparent_all id f d id' : id' <> id ->
+  apps_of id' (all_events (iter_s (LMap id f d))) = apps_of id' (all_events (iter_s d)).
+Proof.
+  intros H. rewrite <- (apps_of_drop id' id _ H), map_upstream_events_all. now apply apps_of_drop.
+Qed.
+
+(* ------------------------------------------------------------------------------------------------ *)
+(* C1: iteration never records a failed fetch *)
+
+Definition nofail (e : ev) : Prop := match e with Fail _ => False | _ => True end.
+
+Lemma nofail_fails id l : Forall nofail l -> fails_of id l = 0.
+Proof.
+  unfold fails_of. induction 1 as [|e l He Hl IH]; simpl; auto. destruct e; simpl in *; auto. contradiction.
+Qed.
+
+Theorem no_fail_in_iteration d : iter_only d = true -> forall id, fails_of id (all_events (iter_s d)) = 0.
+Proof.
+  intros H id. apply nofail_fails, stream_all_all, iter_s_P; auto.
+  intros i _. simpl. auto.
+Qed.
+(* ... nor does any prefix of it *)
+Theorem no_fail_in_iteration_upto d k : iter_only d = true -> forall id, fails_of id (events_upto k (iter_s d)) = 0.
+Proof.
+  intros H id. apply nofail_fails, stream_all_upto, iter_s_P; auto.
+  intros i _. simpl. auto.
+Qed.
